@@ -10,7 +10,7 @@
            PowerPC architecture assigns (S-ppc table below, written from the PowerPC UISA), str() does not raise.
   text     (BND over the same enumeration): assembling str(ppc_mn(w)) gives back w.
 """
-import sys, os, time, random, itertools, struct, traceback, io, contextlib
+import sys, os, re, time, random, itertools, struct, traceback, io, contextlib
 from vlib import common
 from vlib.common import Run, DISCHARGED, FAILED, BOUNDED_OK, UNDECIDED, DOWNGRADED, ENGINE_ERR, Ob
 
@@ -377,10 +377,18 @@ def ob_map_text(run, tier, seed):
                 back = ppc.ppc_mn.asm(txt)
             bw = struct.unpack('>L', back[0])[0]
             if bw != w:
-                fail('text', '%s/%s' % (cls.__name__, txt.split()[0] if txt.split() else '?'), w, '"%s" assembles to 0x%08x' % (txt, bw))
+                fail('text', '%s/%s' % (cls.__name__, text_key(txt)), w, '"%s" assembles to 0x%08x' % (txt, bw))
         except Exception as ex:
-            fail('text', '%s/%s:%s' % (cls.__name__, txt.split()[0] if txt.split() else '?', type(ex).__name__), w, 'assembling "%s" raises %s: %s' % (txt, type(ex).__name__, str(ex)[:80]))
+            fail('text', '%s/%s:%s' % (cls.__name__, text_key(txt), type(ex).__name__), w, 'assembling "%s" raises %s: %s' % (txt, type(ex).__name__, str(ex)[:80]))
     return n, dec - len(badwords), groups, time.time() - t0
+
+def text_key(txt):
+    """mnemonic and, when it is a word (a condition or a special register, not a number or a general register), the first operand"""
+    t = txt.replace(',', ' ').split()
+    if not t: return '?'
+    k = t[0]
+    if len(t) > 1 and re.match(r'^[A-Z][A-Z]+\d*$', t[1]) and not re.match(r'^(R|FP|CR)\d+$', t[1]) and t[1] != 'SP': k += ' ' + t[1]
+    return k
 
 ALIASES = {'LI': 'ADDI', 'LIS': 'ADDIS', 'BLR': 'BCLR', 'BCTR': 'BCCTR', 'B': 'BC', 'MFFSR': 'MFFS', 'TLBID': 'TLBIA'}
 def name_matches(base, spec, w):
